@@ -153,7 +153,17 @@ def finalize(R):
                 R.report_violation(f"a role that delegates to itself makes the client request d.json {nreq} times (stopped by the harness transport after 60 requests); result: {real.get('err')}", sc,
                                    finding_key='self-delegation-unbounded')
             else:
-                R.inconclusive.append(f'counterexample for "{cx["obligation"]}" did not reproduce natively: {nreq} requests for d.json')
+                # a ring of two roles: d delegates to e, e delegates back to d
+                back = [{'name': 'd', 'keys': [4], 'thr': 1, 'table': [4]}]
+                e = [{'name': 'e', 'keys': [4], 'thr': 1, 'table': [4], 'doc': {'version': 1, 'signers': [4], 'delegations': back}}]
+                d2 = [{'name': 'd', 'keys': [4], 'thr': 1, 'table': [4], 'doc': {'version': 1, 'signers': [4], 'delegations': e}}]
+                sc2 = repo(d2, max_requests=60)
+                real2 = R.replay('history', sc2, timeout=120)['cycles'][0]
+                n2 = len([x for x in real2['requests'] if x[0] in ('d.json', 'e.json')])
+                if n2 > 3:
+                    R.report_violation(f"two roles delegating to each other make the client request their files {n2} times (stopped by the harness transport after 60 requests); result: {real2.get('err')}", sc2)
+                else:
+                    R.inconclusive.append(f'counterexample for "{cx["obligation"]}" did not reproduce natively: {nreq} requests for d.json (self-delegation), {n2} for d.json / e.json (ring of two)')
         elif g.split('/')[0] in ('load_timestamp', 'load_snapshot', 'load_targets') and g.split('/')[1] in ('accepted<=bound', 'refusal-justified', 'endless'):
             hit = size_recipes(R, g.split('/')[0], g.split('/')[1])
             if not hit: R.inconclusive.append(f'counterexample for "{cx["obligation"]}" ({g}) did not reproduce with the native size recipes: {str(cx.get("model"))[:200]}')
